@@ -398,6 +398,14 @@ func determinismScript(rng *rand.Rand, seed int64) Script {
 	sc.Actions = append(sc.Actions, Action{A: "block", Txs: []map[string]interface{}{
 		{"kind": "node_stake", "node": "a3", "chains": []interface{}{"0001"}, "amount": float64(6000000), "output": "a6",
 			"delegators": detDelegators()}}})
+	// the upgrade owner (a1) schedules features; several of them share an activation height (the stored
+	// list is merged through a map), in two transactions so that the merge with stored features runs too
+	sc.Actions = append(sc.Actions, Action{A: "block", Txs: []map[string]interface{}{
+		{"kind": "upgrade", "from": "a1", "height": float64(1), "version": "FEATURE",
+			"features": []interface{}{"F1:40", "F2:40", "F3:40", "F4:41", "F5:40", "F6:40"}}}})
+	sc.Actions = append(sc.Actions, Action{A: "block", Txs: []map[string]interface{}{
+		{"kind": "upgrade", "from": "a1", "height": float64(1), "version": "FEATURE",
+			"features": []interface{}{"F7:40", "F8:50", "F9:40", "F2:45"}}}})
 	names := []string{"a1", "a2", "a3", "a4", "a5", "a8"}
 	for b := 0; b < 12; b++ {
 		var txs []map[string]interface{}
@@ -440,7 +448,8 @@ func determinism(out string, n, runs int) {
 				for _, d := range append(detDelegatorNames(), "a6") {
 					paid[d] = o.Final.Bal[d]
 				}
-				tw.Emit(map[string]interface{}{"ev": "info", "id": t, "delegator_and_output_balances": paid, "a3": o.Final.Val["a3"], "tmSet": o.Final.TmSet})
+				tw.Emit(map[string]interface{}{"ev": "info", "id": t, "delegator_and_output_balances": paid, "a3": o.Final.Val["a3"], "tmSet": o.Final.TmSet,
+					"codes": lastCodes(o), "upgrade": o.Final.Upgrade})
 				continue
 			}
 			at, why := compareAB(first, o)
